@@ -140,7 +140,7 @@ def enum_cases(tier):
     for n in range(1, nmax + 1):
         for gi, shape in enumerate(dags.all_dags(n)):
             for style in ("legacy", "taskspec"):
-                yield {"graph": dags.dag_spec(shape, style, ["str", "tuple", "mixed", "int"][gi % 4])}
+                yield {"graph": dags.dag_spec(shape, style, ["str", "tuple", "mixed", "int", "float"][gi % 5])}
 
 
 @st.composite
